@@ -14,18 +14,19 @@ COMMON_NOTE = ("Trusted: the govc VC generator (go/ast+go/types symbolic executi
 CLAIMED = {
     "C20": ("Proof (deductive, unbounded) that BuildLabel.Includes equals the component-wise pattern relation selects(), that "
             "BuildLabel.Matches agrees with it for ... and :all patterns, and that the exclude-pattern filter of BuildState.ShouldInclude and "
-            "isExperimental use it; every obligation generated from the current source is discharged by SMT. Kernel-only: the label "
-            "parser/printer round trip and validateSandbox are not yet under contract.",
+            "isExperimental use it; that BuildLabel.String prints exactly ///subrepo (if any), //package and :name — or ... / /... for the "
+            "all-subpackages wildcard — the form the parser reads back. Kernel-only: the label parser itself (so the round trip as a whole) and "
+            "validateSandbox are not under contract.",
             COMMON_NOTE + "Matches is specified for label.PackageName != \".\" (root alias).",
             "contract-based deductive verification (own WP/symbolic-execution VC generator + SMT)", "6/C20"),
     "C27": ("Proof that MergeCoverageLines returns the pointwise maximum with length extension (loop invariant, unbounded in both "
             "lengths), does not write to its arguments (frame obligation through slice-origin tracking), and lemmas that the merge operator is "
             "commutative, associative, idempotent and selects the best state.",
-            COMMON_NOTE + "TestCoverage.Aggregate's map plumbing is not under contract yet.",
+            COMMON_NOTE + "TestCoverage.Aggregate is under contract as well (files kept, lines merged).",
             "contract-based deductive verification (loop invariants + SMT)", "6/C27"),
     "C33": ("Proof that BuildLabel.CanSee returns true exactly under the documented rule (same package, visibility pattern via Includes, "
             "parent package, experimental exemption/barrier) and that isExperimental is the pattern relation over experimentalLabels.",
-            COMMON_NOTE + "CheckDependencyVisibility (graph lookups) is not under contract yet.",
+            COMMON_NOTE + "CheckDependencyVisibility is under contract with graph lookups assumed pure.",
             "contract-based deductive verification (own VC generator + SMT)", "6/C33"),
     "C36": ("Proof that match, HasLabel, HasAllLabels, BuildTarget.ShouldInclude and BuildState.ShouldInclude compute exactly the documented "
             "include/exclude rule (every label of some include group, no exclude group, exclude patterns via Includes, trailing * by prefix), for all "
@@ -38,8 +39,9 @@ CLAIMED["C14"] = (
     "Proof that shouldClean recognises exactly whole cache entries (key-shaped name + suffix, directory iff uncompressed), that markDir "
     "marks path and path+'=' and never unmarks anything, that isMarked reports membership, and — through call-site obligations inside the real "
     "clean() with the directory walk modelled by an iteration contract — that every os.Rename/RemoveAll issued by the eviction loop targets a "
-    "whole entry that is unmarked at that moment (rename to <entry>=, remove only that). Kernel-only: the low-water-mark bound (size accounting) "
-    "is not proved.",
+    "whole entry that is unmarked at that moment (rename to <entry>=, remove only that); that a retrieve reporting a hit has marked the entry "
+    "(so it is protected for the rest of the process), and that once eviction starts clean returns either below the low-water mark or after "
+    "visiting every entry. Kernel-only: the size accounting itself (unsigned arithmetic, sizes of entries) is taken as computed.",
     COMMON_NOTE + "fs.Walk is an assumed iteration contract (arbitrary finite entry sequence under the root); os.Rename/RemoveAll/Stat are opaque; "
     "the mutex makes markDir/isMarked atomic (assumed).",
     "contract-based deductive verification (call-site obligations + walk iteration contract + SMT)", "6/C14")
@@ -92,10 +94,10 @@ CLAIMED["C25"] = (
     "every newly added target with all its dependencies (resolved, declared-and-present, subrepo) in the set; that targetsToRemove keeps the kept "
     "set dependency-closed at every loop head and at exit (so nothing a kept root transitively depends on is outside it), that the kept "
     "sources cover every local source of every kept target (for every map iteration order), and that no proposed source file is a source of any "
-    "kept target. Kernel-only: WHICH roots are chosen (tests of kept targets via publicDependencies) and the gc_sibling redirection of the final "
-    "removal list are not covered by an obligation.",
-    COMMON_NOTE + "Dependencies(), DeclaredDependencies(), graph.Target(), AllLocalSourcePaths(), PackageMap() and publicDependencies are assumed "
-    "pure functions of the graph; sort.Sort/sort.Strings are permutations (assumed); nil-dereference obligations are switched off for targetsToRemove.",
+    "kept target. publicDependencies looks through a dependency only when it is a sub-target of the same rule and returns every other dependency. "
+    "Kernel-only: WHICH roots are chosen and the gc_sibling redirection of the final removal list are not covered by an obligation.",
+    COMMON_NOTE + "Dependencies(), DeclaredDependencies(), graph.Target(), AllLocalSourcePaths() and PackageMap() are assumed "
+    "pure functions (publicDependencies is used as a function of its arguments by callers and verified separately) of the graph; sort.Sort/sort.Strings are permutations (assumed); nil-dereference obligations are switched off for targetsToRemove.",
     "contract-based deductive verification (recursive contract, closure invariants over maps + SMT)", "6/C25")
 
 CLAIMED["C26"] = (
@@ -167,8 +169,9 @@ CLAIMED["C11"] = (
     "forced and either the target is Unchanged/Reused, its result file exists and carries the current runtime hash (and the coverage file too "
     "when coverage is needed), or the cache was consulted — with the current hash; cacheOutputFiles stores results as reusable ONLY IF no test "
     "arguments were given and no case failed, and it stores under the current hash; test() hands results to cacheOutputFiles only under "
-    "AllSucceeded(). Hence failing results are never stored for reuse. Kernel-only: RuntimeHash's coverage of runtime inputs (C07-C09 family) and "
-    "equality of incremental and fresh outcomes are not under contract.",
+    "AllSucceeded(). Hence failing results are never stored for reuse. The runtime rule hash includes the TEST command for tests, and a "
+    "filegroup output's recorded hash follows its source (shared with C08/C01). Kernel-only: RuntimeHash's file hashing and equality of "
+    "incremental and fresh outcomes are not under contract.",
     COMMON_NOTE + "verifyHash, target.State(), PathExists are assumed functions of their arguments; retrieveFromCache, moveOutputFile, Cache.Store are "
     "opaque; deep callees of test() whose bodies leave the supported subset (select, os/exec) are treated as opaque calls.",
     "contract-based deductive verification (function-literal contracts, call-site obligations + SMT)", "6/C11")
